@@ -13,6 +13,8 @@ open Pcore.Heap
 #print axioms C08_cache_coherent
 #print axioms C08_stale_cache_breaks
 #print axioms C08_pointer_stable
+#print axioms C08_new_results_fresh
+#print axioms C08_sort_fresh
 open Pcore.Immut
 #print axioms C08_field_writes_safe
 #print axioms C08_resolve_frame
